@@ -57,6 +57,12 @@ NEEDS = {
  "C28b-simplify-filter-flags-swapped": "an interval is actually deleted AND filter_individuals=True with filter_sites left False (or the reverse) AND a mutation-free site / unreferenced individual exists",
  "C09b-imap-unordered-zipped-by-position": "num_threads >= 2, more than 64 distinct (mutations, span) keys, and a later batch of the unordered pool finishing first",
  "C22b-singleton-move-only-when-rescaling": "singletons_phased=False with rescaling switched off (rescaling_intervals=0 or rescaling_iterations=0)",
+ "C19c-mom-relative-variance-floor": "approximate_gamma_mom asked for variance/mean^2 < 1e-12 (target shape above 1e12); every other input bit-identical",
+ "C26c-minimum-counts-exclusive": "_poisson_changepoints with min_counts > 0 or min_offset > 0 and an optimal segment whose count or offset equals the minimum exactly",
+ "C31c-unconstrained-times-assume-samples-first": "sites_time_from_ts(unconstrained=True) on a dated input where a non-sample node has an id below num_samples and its mn differs from its constrained time",
+ "C03c-tip-samples-unpinned-in-projection": "a historical tip sample (age > 0, no children) whose parent's unconstrained age is younger, with constr_iterations > 0",
+ "C01c-forced-pass-lowers-child-below-sample-parent": "a sample that is the parent of a non-sample node whose age is within min_branch_length of it, grandchildren within 2*min_branch_length (large min_branch_length)",
+ "C27c-unmodified-shortcut-returns-input": "constrain_ages on ages that need only adjustments below numpy isclose tolerance (relative 1e-5): the unconstrained input array is returned",
  "C26b-pelt-prune-without-penalty-slack": "_poisson_changepoints with penalty > 0 and >= 3 observations whose optimum passes through a changepoint that was not the running argmin",
  "C27b-forced-pass-skips-sample-sample-edges": "a sample-to-sample edge (internal / ancient sample above a sample) whose child is raised or whose length is below min_branch_length",
  "C29b-isclose-gap-not-split": "genomic coordinates >= ~1e5 and a gap in a node's ancestry narrower than 1e-5 x position",
